@@ -9258,6 +9258,15 @@ class SVG(Group):
                     if context is not None:
                         context.append(s)
                     context = s
+                    # The svg's own position and size are not inherited by its children.
+                    if SVG_ATTR_X in values:
+                        del values[SVG_ATTR_X]
+                    if SVG_ATTR_Y in values:
+                        del values[SVG_ATTR_Y]
+                    if SVG_ATTR_WIDTH in values:
+                        del values[SVG_ATTR_WIDTH]
+                    if SVG_ATTR_HEIGHT in values:
+                        del values[SVG_ATTR_HEIGHT]
                 elif SVG_TAG_GROUP == tag:
                     try:
                         s = Group(values)
